@@ -12,9 +12,11 @@ Conformance (spec -> code): (A) every row of the tables is executed on a live Re
 under several naming / parsing / dtype / assignment-order modes and every public way of
 evaluating a word is compared entry by entry; (B) every history of RepHist up to depth k is
 replayed on the real object and both dictionaries, all word images and the differential are
-compared with the specification's post-state; (C) seeded random unimodular cases with long
+compared with the specification's post-state (Eval interleaved everywhere); (C) seeded random unimodular cases with long
 words go through the same tables via a generated wrapper module.  (code -> spec): (D) random
-long histories recorded from the real object are validated by TLC against RepTrace.tla.
+long histories recorded from the real object are validated by TLC against RepTrace.tla; (E) the
+Representation histories exercised by the repository's own test-suite, recorded by an external pytest
+plug-in (harness/rep_pytest_trace.py), are validated against RepSymTrace.tla (free symbols).
 """
 import itertools
 import json
@@ -682,6 +684,10 @@ def run(run, replay=None):
         run.seed, run.tier = d.get("seed", run.seed), d.get("tier", run.tier)
         print("replaying tier=%s seed=%s first=%s" % (run.tier, run.seed, d.get("first", {}).get("key")))
     quick = run.tier == "quick"
+    if os.environ.get("C05_PARTS") == "suite":      # development / demonstration: only the repo-suite trace part
+        from .. import rep_suite
+        rep_suite.run(run)
+        return
     run.rule = ("a case is one (table row, mode) pair executed on a live Representation (all words of the row, every "
                 "public evaluation form), or one replayed history (mode included); distinct_nontrivial counts distinct "
                 "(case, part, kind, mode) pairs plus replayed histories")
@@ -703,12 +709,15 @@ def run(run, replay=None):
     rand_path, rand_cfg = rep_random.prepare(run, quick)
     recorded = rep_trace.record(run, quick)
     # the four TLC runs are independent: run them side by side (12 worker threads in total)
-    with ThreadPoolExecutor(4) as ex:
+    from .. import rep_suite
+    with ThreadPoolExecutor(5) as ex:
+        f_suite = ex.submit(rep_suite.run, run)      # (E) histories of the repository's own tests (pytest + 1 TLC worker)
         f_rep = ex.submit(run.tlc, "rep/Rep.tla", c, name="Rep", workers=6, emit_prefix="\x00none")
         f_hist = ex.submit(run.tlc, "rep/RepHist.tla", hist_cfg(depth), name="RepHist", workers=2)
         f_rand = ex.submit(run.tlc, rand_path, rand_cfg, name="RepRand", workers=2, emit_prefix="\x00none")
         f_trace = ex.submit(rep_trace.validate, run, recorded[0], "RepTrace") if recorded[0] else None
         results = [f.result() if f else None for f in (f_rep, f_hist, f_rand, f_trace)]
+        f_suite.result()
     tables(run, results[0], "Rep", quick)
     histories(run, results[1], quick, depth)
     tables(run, results[2], "RepRand", quick, tag="rand:")
